@@ -19,6 +19,13 @@ open Httpcore Httpcore.Pool
 inside `with self._optional_thread_lock:` (or inside the pass, all of whose call sites are). -/
 theorem pool_mutations_locked : ∀ m ∈ Gen.poolMutations, m.2.2 = true := by decide
 
+/-- **C08.establishment_single** — in each of the three connection classes that establish lazily (direct, SOCKS, CONNECT tunnel) the
+"already established?" test is made with the connect lock held (regenerated): of several threads that share a connection that is
+not established yet, exactly one establishes it; the others find it established (or failed) when they get the lock. -/
+theorem establishment_single : ∀ r ∈ Gen.establishChecks, r.2 = true := by decide
+
+example : Gen.establishChecks.length = 3 := by decide
+
 /-- **C08.limit_under_threads** — the connection limit holds after a pass even if every status bit a pass reads
 (closed / expired / idle / available) is answered adversarially at every single read, i.e. whatever other threads do to the
 connections meanwhile (re-export of C04). -/
